@@ -55,3 +55,38 @@ Print Assumptions failed_division_changes_nothing.
 
 Example popinv_witness : PopInv (run [EvDivide [1%nat]; EvRemove [0]] (init_pop 3)).
 Proof. apply popinv_b_spec. vm_compute. reflexivity. Qed.
+
+(* ------------------------------------------------------------------------------------------------------------------
+   "At every point where the simulation uses them": the composition of the phases of one iteration (Iteration.v), in the
+   order READ FROM src/solver.cpp on this run (Iteration_gen.v). *)
+From SC Require Import IterationDefs Iteration_gen Iteration IterationProofs.
+Local Open Scope nat_scope.
+
+(* the order of the phases in the source is the documented one (divider before the phases that use list indices, the
+   statistics before the removal, the renumbering right after the erase, ...) *)
+Theorem phase_order_is_documented :
+  (iteration_translation_ok && entries_eqb run_iteration_phases documented_order && run_loop_final_statistics)%bool = true.
+Proof. vm_compute. reflexivity. Qed.
+Print Assumptions phase_order_is_documented.
+
+(* the population after one iteration is the bookkeeping of Population.v: the divisions (when the divider runs), then the
+   removals *)
+Theorem iteration_is_divide_then_remove : forall (inp : inputs) (s : istate),
+  i_pop (run_iteration documented_order inp s) = remove (in_below inp) (mid_pop inp s).
+Proof. exact iteration_population. Qed.
+Print Assumptions iteration_is_divide_then_remove.
+
+(* across any number of iterations, with any history of divisions and removals: the invariant holds between iterations, and
+   EVERY phase that dereferences stored list indices (contact, polarization update, time integration) ran on a population
+   whose list indices were the positions *)
+Theorem list_indices_are_positions_wherever_they_are_used : forall (inps : list inputs) (s : istate),
+  PopInv (i_pop s) -> uses_ok (i_log s) = true -> inputs_all_ok inps s ->
+  PopInv (i_pop (run_iterations documented_order inps s)) /\ uses_ok (i_log (run_iterations documented_order inps s)) = true.
+Proof. exact uses_see_positions. Qed.
+Print Assumptions list_indices_are_positions_wherever_they_are_used.
+
+(* the order matters (the obligation above is not decorative): with the statistics after the removal the record differs *)
+Theorem another_order_gives_another_record :
+  i_log (run_iteration stats_after_removal (mkin [] [1%N] false) (init_state 3)) <>
+  i_log (run_iteration documented_order (mkin [] [1%N] false) (init_state 3)).
+Proof. exact order_matters. Qed.
